@@ -346,6 +346,9 @@ def inputs(seed=0, ny=20, nx=26, variant="mask"):
     msk = np.zeros((ny, nx), dtype=np.int16)
     msk[5, 7] = 2
     msk[11, 3] = 1
+    if variant == "wide":
+        # a requested interval that reaches the image width (legal for sad / ssd): nothing of it belongs to the run
+        return D.image(left, disp=(-nx, nx), msk=msk), D.image(right, disp=None)
     if variant == "flat":
         flat = np.full((ny, nx), 7.0, dtype=np.float32)
         return D.image(flat, disp=(-4, 4)), D.image(flat.copy(), disp=None)
@@ -603,6 +606,7 @@ def spaces(tier, seed):
     untouched = [{"kind": "untouched", "pipe": nm, "variant": v} for nm in names[:8] for v in ("mask", "nan")]
     untouched += [{"kind": "untouched", "pipe": nm, "variant": "multi"} for nm in ("B0", "B1")]
     untouched += [{"kind": "untouched", "pipe": nm, "variant": "bare"} for nm in ("P0", "P2", "Q1")]
+    untouched += [{"kind": "untouched", "pipe": nm, "variant": "wide"} for nm in ("P0", "Q1", "X0")]
     flat = [{"kind": "hist", "P": "F0", "word": list(w), "ref": ref}
             for w in (["rM1F0"] * 3, ["rM1F0", "rM2Q1", "rM1F0"], ["rM1F0", "rM2P2", "rM1F0", "rM2X0", "rM1F0"],
                       ["rM2P0", "rM1F0", "rM2Q2", "rM1F0"])]
